@@ -112,12 +112,17 @@ Definition step_verdict (st : sim) (s : step) : sim * option verdict :=
                        (negb (Bool.eqb (has_recfail t1) (has_recfail t2)))
                        (ns_closed t2 && quiet t2)))
   | StOpq rs rf ts tf =>
-      let sc := opaque_script tf [] in
-      let '(x1, r1, t1) := run_script (s_w st) (s_x st) sc in
-      let '(_, r2, t2) := run_script (s_w st) ctx0 sc in
+      (* prediction: replay the accesses of the fresh run on the shared state and on a fresh one;
+         the operation can only behave differently if some answer differs.  State: the shared
+         instance has really made the accesses ts. *)
+      let scf := opaque_script tf [] in
+      let '(_, r1, t1) := run_script (s_w st) (s_x st) scf in
+      let '(_, r2, t2) := run_script (s_w st) ctx0 scf in
+      let '(x1, _, t1s) := run_script (s_w st) (s_x st) (opaque_script ts []) in
       let same := res_eqb r1 r2 in
-      (mkSim (s_w st) x1 (s_t st ++ t1),
-       Some (mkVerdict (trace_agree true t2 tf && (negb same || trace_agree true t1 ts))
+      (mkSim (s_w st) x1 (s_t st ++ t1s),
+       Some (mkVerdict (trace_agree true t2 tf && trace_agree true t1s ts
+                        && (negb same || list_eqb otev_eqb ts tf))
                        (negb (res_eqb rs rf)) (negb same)
                        (dev_ns t1 || dev_ns t2) (dev_stale t1 || dev_stale t2)
                        (dev_prune t1 || dev_prune t2) false
@@ -145,7 +150,7 @@ Fixpoint hops_of (w : world) (l : list step) : list hop :=
   | [] => []
   | StEnv e :: r => HEnv e :: hops_of (env_step w e) r
   | StOp o _ _ _ _ _ :: r => HRun (op_script w o) :: hops_of w r
-  | StOpq _ _ _ tf :: r => HRun (opaque_script tf []) :: hops_of w r
+  | StOpq _ _ ts _ :: r => HRun (opaque_script ts []) :: hops_of w r
   end.
 
 (* the guard of C14_history_independent_guarded for *every* call of the case: the
@@ -229,11 +234,7 @@ Definition log_eqb := list_eqb (fun a b : nat * nat => Nat.eqb (fst a) (fst b) &
 
 Definition cc_progs (c : ccase) : list script := map (op_script (cc_world c)) (cc_threads c).
 
-(* is the state one in which the index is current *)
-Definition index_eqb (a b : list (str * list cid)) : bool :=
-  list_eqb (fun x y : str * list cid => str_eqb (fst x) (fst y) && lcid_eqb (snd x) (snd y)) a b.
-Definition is_warm (w : world) (st : sstate) : bool :=
-  N.eqb (s_seen st) (w_modules w) && index_eqb (index_of st) (ideal_index w).
+Definition is_warm := warm_b.
 
 (* summary bit mask of a concurrent case:
    1 agree (results, solo results, executed marked lines), 2 inside the guard of
